@@ -445,12 +445,13 @@ async def sorted(
     """
     if key is None:
         # TODO: is this a worthwhile optimisation?
-        try:
-            return _sync_builtins.sorted(iterable, reverse=reverse)  # type: ignore
-        except TypeError:
-            items: _sync_builtins.list[Any] = [item async for item in aiter(iterable)]
-            items.sort(reverse=reverse)
-            return items
+        # decide by the kind of iterable, not by catching TypeError: unorderable items
+        # raise TypeError as well, which must propagate (and may have used up an iterator)
+        if not isinstance(iterable, AsyncIterable):
+            return _sync_builtins.sorted(iterable, reverse=reverse)
+        items: _sync_builtins.list[Any] = [item async for item in aiter(iterable)]
+        items.sort(reverse=reverse)
+        return items
     else:
         async_key = _awaitify(key)
         keyed_items = [(await async_key(item), item) async for item in aiter(iterable)]
